@@ -181,6 +181,8 @@ struct Tree {
   }
 };
 
+std::string exec(const std::vector<std::string> &w);
+
 std::string exec(const std::vector<std::string> &w) {
   if (w.empty()) throw BadOp();
   const std::string &op = w[0];
@@ -359,6 +361,93 @@ std::string exec(const std::vector<std::string> &w) {
       if (i >= wb.size() || wa[i] != wb[i]) return "ok differ " + vh::split(wa[i], '=')[0];
     }
     return "ok differ keys";
+  }
+  if (op == "resume" && n >= 14 && (n - 12) % 2 == 0) {
+    // the statement of Resume.equiv on the real library: train m+n steps vs
+    // train m | save | load into fresh objects | train n, same data
+    std::size_t k = 0;
+    for (; k < 6; ++k) if (w[1] == KINDS[k]) break;
+    if (k == 6) throw BadOp();
+    const std::uint64_t m = vh::to_u64(w[2]), cont = vh::to_u64(w[3]);
+    if (m + cont > 64) throw BadOp();
+    const std::vector<float> h = nums(w[4]);
+    if (!h.empty() && h.size() != ARITY[k]) throw BadOp();
+    const float lr = num(w[5]), l2 = num(w[6]), clip = num(w[7]);
+    const std::uint32_t ep = unum(w[8]);
+    const std::vector<float> as = nums(w[9]), bs = nums(w[10]);
+    if (as.empty() || bs.empty()) throw BadOp();
+    const std::string names = w[11] == "-" ? std::string() : w[11];
+    std::string names_sp = names;
+    std::replace(names_sp.begin(), names_sp.end(), ',', ' ');
+    const std::size_t P = (n - 12) / 2;
+    for (std::size_t i = 0; i < P; ++i) {
+      std::uint64_t prod = 1;
+      std::vector<std::uint32_t> dims = vh::csv_u32(w[12 + 2 * i] == "-" ? std::string() : w[12 + 2 * i]);
+      if (dims.size() > 8) throw BadOp();
+      for (std::uint32_t d : dims) { if (d == 0) throw BadOp(); prod *= d; }
+      if (prod != nums(w[13 + 2 * i]).size()) throw BadOp();
+    }
+    g_opts.clear(); g_params.clear(); g_ckpts.clear();
+    auto run = [&](const std::string &line) {
+      const std::string r = exec(vh::words(line));
+      if (r.compare(0, 2, "ok") != 0) throw Error(__FILE__, __LINE__, "resume: `" + line + "` -> " + r);
+      return r;
+    };
+    std::string hs;
+    for (float v : h) hs += " " + show(v);
+    run("opt 0 " + w[1] + hs);
+    g_opts[0]->set_learning_rate_scaling(lr);
+    g_opts[0]->set_weight_decay(l2);
+    g_opts[0]->set_gradient_clipping(clip);
+    g_opts[0]->set_epoch(ep);
+    std::string all, tree, fresh;
+    for (std::size_t i = 0; i < P; ++i) {
+      run("param " + std::to_string(i) + " " + w[12 + 2 * i] + " " + w[13 + 2 * i]);
+      all += " " + std::to_string(i);
+      tree += " " + std::to_string(i) + ":m" + std::to_string(i % 2) + ".p" + std::to_string(i);
+      fresh += " " + std::to_string(P + i);
+    }
+    run("addm 0" + all);
+    const std::string how = clip > 0 ? "near" : "bits";
+    bool resumed = false;
+    auto step = [&](std::size_t t, std::size_t base, const std::string &o) {
+      for (std::size_t i = 0; i < P; ++i) {
+        const std::size_t sz = g_params[base + i]->shape().size();
+        run("lgrad " + std::to_string(base + i) + " " + shows(std::vector<float>(sz, as[t % as.size()])) + " " +
+            shows(std::vector<float>(sz, bs[t % bs.size()])));
+      }
+      run("update " + o);
+    };
+    for (std::size_t t = 0; t <= m + cont; ++t) {
+      if (t == m) {
+        run("checkpoint 0 R" + tree);
+        run("restore R 1 " + w[1] + " naive2" + fresh);
+        resumed = true;
+      }
+      if (t == m + cont) break;
+      step(t, 0, "0");
+      if (resumed) step(t, P, "1");
+    }
+    std::string verdict = "ok same";
+    for (std::size_t i = 0; i < P && verdict == "ok same"; ++i) {
+      const std::string r = run("same " + std::to_string(i) + " " + std::to_string(P + i) + " " + how + " " + names_sp);
+      if (r != "ok same") verdict = r;
+    }
+    if (verdict == "ok same") {
+      const std::string r = run("osame 0 1");
+      if (r != "ok same") verdict = r;
+    }
+    std::vector<std::string> nv = names.empty() ? std::vector<std::string>() : vh::split(names, ',');
+    std::sort(nv.begin(), nv.end());
+    for (std::size_t i = 0; i < P; ++i) {
+      const Parameter &p = *g_params[i];
+      verdict += " p" + std::to_string(i) + ":v=" + shows(p.value().to_vector());
+      for (const std::string &nm : nv) {
+        if (p.has_stats(nm)) verdict += " p" + std::to_string(i) + ":" + nm + "=" + shows(p.stats(nm).to_vector());
+      }
+    }
+    verdict += " " + state_of(*g_opts[0]).substr(3);
+    return verdict;
   }
   throw BadOp();
 }
